@@ -14,7 +14,7 @@ class enumivname(Command): str = ''
 class List(Environment):
     """ Base class for all list-based environments """
     depth = 0
-    counters = ['enumi','enumii','enumiii','enumiv']
+    counters = ['enumi','enumii','enumiii','enumiv','enumv','enumvi']
     blockType = True
 
     class item(Command):
